@@ -194,7 +194,12 @@ async def run_session(rig, idx, where, cmds, k, results, uidmap, order_log):
     if where == "pop3":
         p = rig.pop3(f"P{idx}")
         outs = []
+        loop = rig.loop
+        paced = getattr(loop, "rng", None) is not None and getattr(loop, "strategy", None) is not fifo_all_strategy and getattr(loop, "replay", None) is None
         for c in cmds:
+            if paced:
+                for _ in range(loop.rng.randint(0, 2)):
+                    await loop.run_in_executor(None, int)
             rep = await p.cmd(c)
             order_log.append((idx, c))
             outs.append(("+OK" if rep is not None and rep.ok else ("-ERR" if rep is not None else "NOREPLY"),))
@@ -202,7 +207,15 @@ async def run_session(rig, idx, where, cmds, k, results, uidmap, order_log):
         return
     s = rig.sessions_by_idx[idx]
     outs = []
+    loop = rig.loop
+    paced = getattr(loop, "rng", None) is not None and getattr(loop, "strategy", None) is not fifo_all_strategy and getattr(loop, "replay", None) is None
     for j, c in enumerate(cmds):
+        if paced:
+            # client think time as a schedulable event (a no-op thread job whose completion
+            # the scheduler releases among the server's own): commands also arrive while
+            # other sessions' commands are half way through
+            for _ in range(loop.rng.randint(0, 2)):
+                await loop.run_in_executor(None, int)
         if c.startswith("APPEND "):
             box = c.split()[1]
             # content id by the ordinal of this APPEND among the session's APPENDs
